@@ -292,6 +292,13 @@ def _executor_never_raises():
     top = [c for c in c01.M.contracts if c.qname == c01.P_EX + ':execute']
     assert len(top) == 1 and top[0].raises_only == () and set(top[0].raises) == {OSError}, \
         'C04 rests on: executor.execute lets nothing but an OSError of the sandbox construction escape'
+    # "... the sandbox is removed (unless --keep, when it is left intact and its path is reported)": which output
+    # mode keeps the sandbox, that the flag reaches `execution.execute`, and that --keep prints the path whenever a
+    # sandbox exists are under contract in C02 (the three reporters, Processor._executor); they carry C04 too.
+    # (After the seeded changes C04-s5, s6.)
+    names += share_contracts('C04', 'contracts.C02_outcome', lambda q: q.endswith((
+        '.depends_on_result_in_sandbox', ':_ResultReporterForPreserveAndPrintSandboxDir.report',
+        ':Processor._executor')))
     return names
 
 
